@@ -1009,6 +1009,17 @@ def unit_g12s(ctx):
     if l == 256:
         Q["p"] = P["p"][:34] + bytes(rng.randrange(256) for _ in range(34))       # p: first 68*l/512 octets are read
     sp.append(("unused-octets-random", Q))
+    if l == 256:
+        # a genuine prime-order group that fails exactly one condition of the list, a != 0 (j-invariant 0): secp256k1
+        kp = (1 << 256) - (1 << 32) - 977
+        kq = 0xFFFFFFFFFFFFFFFFFFFFFFFFFFFFFFFEBAAEDCE6AF48A03BBFD25E8CD0364141
+        kx = 0x79BE667EF9DCBBAC55A06295CE870B07029BFCDB2DCE28D959F2815B16F81798
+        ky = 0x483ADA7726A3C4655DA4FBFC0E1108A8FD17B448A68554199C47D08FFB10D4B8
+        K = dict(P, n=1)
+        for f, v, n_ in (("p", kp, no), ("a", 0, no), ("b", 7, no), ("xP", kx, no), ("yP", ky, no), ("q", kq, l // 8)):
+            K[f] = M.to_le(v, n_) + bytes(len(P[f]) - n_)
+        if M.g12s_no(K) == no and ec.Curve(kp, 0, 7).mul(kq, (kx, ky)) is None:
+            sp.append(("a=0:valid-group-with-j=0", K))
     cases += [("special:" + s, d) for s, d in sp if d is not None]
     cases = _chunk(cases, ctx)
     run_param_cases(ctx, rep, "g12sParamsVal", M.G12S, cases, M.g12s_verdict, lib.g12sParamsVal)
@@ -1084,6 +1095,23 @@ def unit_pfok(ctx):
           ("n=l", dict(P, n=l)), ("n=l-1", dict(P, n=l - 1)), ("n=0", dict(P, n=0)), ("n=max", dict(P, n=SIZE_MAX)),
           ("r+1", dict(P, r=P["r"] + 1)), ("r=0", dict(P, r=0)), ("l+1", dict(P, l=l + 1)), ("l=0", dict(P, l=0)),
           ("l=other-level", dict(P, l=M.PFOK_L[(M.PFOK_L.index(l) + 1) % len(M.PFOK_L)]))]
+    if l <= 1100:
+        # a prime p' of the same shape (p' = p + 4k) whose (p' - 1) / 2 is composite, with a g that meets the order tests:
+        # only the primality of q fails
+        k, pp = 0, None
+        while k < 40000:
+            k += 1
+            c = pv + 4 * k
+            if c.bit_length() == l and M.is_prime(c) and not M.is_prime((c - 1) // 2):
+                pp = c
+                break
+        if pp:
+            e2 = M.mont_unity(pp, l)
+            for _ in range(50):
+                g2 = rng.randrange(2, pp - 1)
+                if M.mont_power(g2, (pp - 1) // 2, pp, l) != e2 and M.mont_power(g2, 2, pp, l) != e2:
+                    sp.append(("p=prime-with-composite-q", dict(putv("p", pp), g=putv("g", g2)["g"])))
+                    break
     cases += [("special:" + s, d) for s, d in sp if d is not None]
     cases = _chunk(cases, ctx)
     run_param_cases(ctx, rep, "pfokParamsVal", M.PFOK, cases, M.pfok_verdict, lib.pfokParamsVal)
